@@ -368,3 +368,55 @@ def check(model, rep, prop):
               witness='a function using the construct named in the reason')
   rep.unit('order constraints', len(cons))
   freshness(model, rep, 'ORDER')
+  guards(model, rep, 'ORDER')
+
+
+# passes that run only under an optional feature (documented); every other pass
+# runs for every function: later passes *create* the constructs it handles
+# (break lowering makes `not` / `and` tests, return lowering makes `if` guards)
+FEATURE_GATED = {'asserts': 'ASSERT_STATEMENTS', 'lists': 'LISTS', 'slices': 'LISTS'}
+
+
+def guards(model, rep, rule):
+  """The condition under which each converter pass runs, as a formula over the
+  option tests `uses(Feature.X)`; anything else in the condition is opaque."""
+  from sa import formula
+  fi = model.func(API, 'PyToPy.transform_ast')
+
+  def at(e):
+    t = core.norm(e)
+    if isinstance(e, ast.Call) and t.endswith(')') and '.uses(' in t or t.startswith('uses('):
+      arg = core.norm(e.args[0]) if getattr(e, 'args', None) else ''
+      if arg.startswith('converter.Feature.'):
+        return 'F:' + arg.split('.')[-1]
+    if isinstance(e, ast.Name):
+      x = tpl.xnorm(fi, e, e)
+      if x != e.id and '.uses(' in x:
+        return 'F:' + x.split('Feature.')[-1].rstrip(')')
+    # a member of the Feature enum is never None (rows of a pass table)
+    if isinstance(e, ast.Compare) and len(e.ops) == 1 and isinstance(e.ops[0], ast.Is) \
+        and isinstance(e.comparators[0], ast.Constant) and e.comparators[0].value is None \
+        and (core.dotted(e.left) or '').startswith('converter.Feature.'):
+      return formula.FALSE
+    return None
+  for n in core.preorder(fi.node):
+    if isinstance(n, ast.Call) and isinstance(n.func, ast.Attribute) and \
+        n.func.attr == 'transform' and isinstance(n.func.value, ast.Name):
+      r = model.resolve(fi.module, n.func.value)
+      if not (r and r[0] == 'module' and r[1].name.startswith(CONV)):
+        continue
+      name = r[1].name[len(CONV):]
+      cond = formula.condition_formula(fi.node, n, at)
+      want = formula.atom('F:' + FEATURE_GATED[name]) if name in FEATURE_GATED \
+          else formula.TRUE
+      ok, cex = formula.equivalent(cond, want)
+      rep.check(ok, rule, '%s:runs(%s)' % (fi.site, name),
+                'pass %s must run %s; a pass that is skipped when the *user* '
+                'code shows none of its constructs misses the ones earlier '
+                'passes generate' % (name, ('exactly under Feature.%s' %
+                                            FEATURE_GATED[name]) if name in FEATURE_GATED
+                                     else 'unconditionally'),
+                {'condition': str(cond)[:200], 'counterexample': cex},
+                line=n.lineno,
+                witness='a loop with break whose tests are plain calls: the '
+                'lowered `not break_ and test` stays native')
